@@ -70,6 +70,13 @@ def ent_calls(ctx, facts):
             text = " ".join([c, t.get("callee", "")] + t.get("substs", []))
             src = _classify(text)
             where = "%s:%d" % (t["sp"][0], t["sp"][1])
+            if short(t.get("callee", "")) == "hasher" and re.search(r"(HashMap|HashSet|IndexMap|IndexSet)::<", t.get("callee", "") + c):
+                # the BuildHasher of a container handed in by the caller: for a std HashMap it is a per-process keyed RandomState,
+                # and whatever it is, it is not a parameter of the sketcher
+                ctx.violation("ENT", owner, "container hasher used: %s" % c[:80], where,
+                              "`%s` takes the hasher of the caller's container: anything derived from it (a seed, a slot) differs between two maps holding the "
+                              "same data, hence between instances, threads and processes" % c[:120])
+                continue
             if src is None:
                 continue
             if any(re.search(h, c) for h in HANDLE_OK):
@@ -225,7 +232,7 @@ def run(ctx, facts):
     # histories: an instance brought back by reinit()/reset() is a constructed instance
     ctx.rule("REINIT", "reinit/reset re-establishes every live mutated field with the constructor's value (RESET analysis of C13): an "
                        "instance reused after it produces what a new instance produces")
-    C13.require_verified_reset(ctx, facts, [x for x in (C13.SMH, C13.SMH2, C13.SS, C13.OD, C13.RD, C13.P2)], "REINIT")
+    C13.require_verified_reset(ctx, facts, [x for x in (C13.FY, C13.MVT, C13.OMS, C13.SMH, C13.SMH2, C13.SS, C13.OD, C13.RD, C13.P2)], "REINIT")
 
 
 def thorough(ctx, src):
